@@ -18,3 +18,26 @@ Theorem C06_flush_conserves_rows :
       ++ fl_rows (fst (to_stream_frame f)) = fl_rows f.
 Proof. exact to_stream_frame_conserves. Qed.
 Print Assumptions C06_flush_conserves_rows.
+
+From PJ.Proofs Require Import FlowProofs.
+
+(* What is handed out is, in order, exactly what was appended: the options row, the declarations'
+   rows, the rows of each statement -- nothing lost, duplicated or reordered by the framing,
+   whatever the flow kind and frame size. *)
+Theorem C06_triples_rows_conserved :
+  forall (d : sdata) (s s' : stream) (evs : list tev),
+    triples_stream_frames d s = (s', evs) -> raised evs = None ->
+    flat_map f_rows (emitted evs) =
+    fl_rows (st_flow (fst (ns_phase false d (enroll s)))) ++
+    appended_all stream_triple appended_triple (d_stmts d) (fst (ns_phase false d (enroll s))).
+Proof. intros. rewrite <- emitted_rows_is_concat. now apply triples_stream_rows with (s' := s'). Qed.
+Print Assumptions C06_triples_rows_conserved.
+
+Theorem C06_quads_rows_conserved :
+  forall (d : sdata) (s s' : stream) (evs : list tev),
+    quads_stream_frames d s = (s', evs) -> raised evs = None ->
+    flat_map f_rows (emitted evs) =
+    fl_rows (st_flow (fst (ns_phase true d (enroll s)))) ++
+    appended_all stream_quad appended_quad (d_stmts d) (fst (ns_phase true d (enroll s))).
+Proof. intros. rewrite <- emitted_rows_is_concat. now apply quads_stream_rows with (s' := s'). Qed.
+Print Assumptions C06_quads_rows_conserved.
